@@ -683,7 +683,7 @@ def _real_pool_cases(rng, nets, subs):
 
 def run_bounded(rep: Report, tier: str) -> None:
     os.environ.setdefault("COTENGRA_NUM_WORKERS", "3")
-    dl = deadline(tier, 75, 1200)
+    dl = deadline(tier, 300, 1800)
     rep.rule = (
         "a case = (rand_equation parameters, method subset, objective, post-processing set, max_repeats, pool kind + scripted "
         "completion order, scripted failing calls, sampler seed); distinct by that tuple; non-trivial iff the search returned a tree, "
